@@ -104,7 +104,10 @@ earlier" are generator shapes worth having for every parser, decoder and state m
 the request, with a peer that keeps talking; (4) callbacks need begin/end events, and closes must also be injected from inside
 callbacks; (5) exhaustive small-scope request enumeration (C02) and escalation on changed fingerprints (C01-2 was found in the
 escalated run) pay for themselves; (6) the thorough tier is not a formality: it found the ring buffer's Close defect and the
-SETUP / stream data race.
+SETUP / stream data race; (7) round 8 (`<id>-8`): trying a seeded change can uncover a defect of the UNCHANGED code (the multicast SETUP /
+stream-close panic, 075df01, was reported while C13-8 was tried and then reproduced on the clean tree) - every report is replayed on
+the clean tree before it is credited to the seed; handlers of the harness should do what applications do (an accessor of the
+session inside OnStreamWriteError exposed C13-8); four round-8 changes are still open and name the generator shapes of the next round.
 ''' % (len(rows), len([r for r in rows if r[2] in ('caught', 'caught-by-correspondence')]), len(after), ', '.join(after), ', '.join(miss) or 'none'))
     return '\n'.join(out)
 
